@@ -1,5 +1,5 @@
 import sys, json, math, subprocess
-sys.path[:0]=['/repo','/verif','/root/work/topdown']
+sys.path[:0]=[__import__('os').environ.get('DEEPROB_REPO', '/repo'), __import__('os').path.dirname(__import__('os').path.dirname(__import__('os').path.dirname(__import__('os').path.abspath(__file__)))), __import__('os').path.dirname(__import__('os').path.abspath(__file__))]
 import numpy as np
 from collections import Counter
 from harness.spn import rand_spn, export_net, domain_of
